@@ -1090,7 +1090,7 @@ func main() {
 	}
 	var b strings.Builder
 	b.WriteString("(* GENERATED by translate/gen_goroutines_reader from " + "$VERIF_REPO/reader" + " -- do not edit, never committed *)\n")
-	b.WriteString("From Coq Require Import List String ZArith.\nFrom Qryn Require Import model.ReaderGoroutines model.ReaderFlow.\nImport ListNotations.\nOpen Scope string_scope.\n\n")
+	b.WriteString("From Coq Require Import List String ZArith.\nFrom Qryn Require Import model.ReaderGoroutines model.ReaderFlow model.ReadConn.\nImport ListNotations.\nOpen Scope string_scope.\n\n")
 	np := 0
 	for _, v := range panicsDecl {
 		if v {
@@ -1165,6 +1165,7 @@ func main() {
 	writeFlows("reader_lock_flows", "FLock", lockFlows)
 	b.WriteString("\n(* control-flow model of every goroutine body per channel it sends on: the duty to close it *)")
 	writeFlows("reader_close_flows", "FClose", closeFlows)
+	writeConnFlows(&b, fset, root, files, parsed, ctxOf, func(p string) string { r, _ := filepath.Rel(root, p); return r })
 	if err := os.WriteFile(out, []byte(b.String()), 0644); err != nil {
 		fmt.Fprintln(os.Stderr, err)
 		os.Exit(1)
